@@ -42,6 +42,19 @@ def collect_obs(L, mmax, tier, to, split):
             outside=["in-line fast path of collect() for more than %d consecutive bytes inside one call (longer buffers follow by composition of the byte-wise reference only if "
                      "the in-line path agrees with the resumed path, which is checked up to this length)" % L,
                      "block capacities above %d bytes are covered through the symbolic-capacity argument only (production: 100000..900000)" % mmax])
+def collect_inline_obs(L, mmax, tier, to):
+    for shape in range(1 << (L - 1)):
+        add("collect_inline_L%d_s%02x" % (L, shape), "h_collect.c", "h_collect_inline", {"C04": tier, "C01": tier, "C02": tier},
+            defines=["-DLEN=%d" % L, "-DMMAX=%d" % mmax, "-DINLINE_SHAPES", "-DSHAPE=%d" % shape],
+            cbmc=["--unwind", "40", "--unwindset", "collect.0:260"], backend="kissat", timeout=to, mem_gb=4,
+            shrink="encoder_scratch", extra_src=["crctab.c"], functions=COLLECT_FUNCS, assumptions=COLLECT_ASM + [SHRINK_NOTE],
+            witness_mode="any",
+            bounds="in-line path of collect(): one call, %d-byte buffer with byte-equality pattern %s (bit k set = byte k+1 equals byte k; "
+                   "all %d patterns are registered), concrete byte values, no pending run, concrete CRC start; capacity M symbolic 1..%d, "
+                   "fill level and block contents symbolic" % (L, format(shape, "0%db" % (L - 1)), 1 << (L - 1), mmax),
+            outside=["a run reaching the 259 limit inside one call (needs >= 259 bytes in one buffer; the limit on the resumed path is covered by collect_len*)"])
+collect_inline_obs(5, 8, "quick", 300)
+collect_inline_obs(7, 10, "thorough", 600)
 collect_obs(0, 9, "quick", 300, False)
 collect_obs(1, 9, "quick", 300, False)
 collect_obs(2, 6, "quick", 600, True)
